@@ -699,3 +699,151 @@ Section Observables.
     rewrite <- zsum_map_add. apply zsum_map_ext. intros pu _. apply (ti_vals _ _ _ _ It).
   Qed.
 End Observables.
+
+(* ------------------------------------------------------------------------------------------ *)
+(** * C02: proposals are transactional (facts about EVERY state) and C10: validity is exact *)
+
+Section Transactions.
+  Variable d : dataset.
+
+  Lemma propose_keeps_values s i k :
+    (forall pu, v_vals (var (propose d s i) k) pu = v_vals (var s k) pu) /\
+    v_total (var (propose d s i) k) = v_total (var s k) /\
+    (forall pu, v_attrs (var (propose d s i) k) pu = v_attrs (var s k) pu).
+  Proof. destruct k; repeat split; reflexivity. Qed.
+
+  Lemma propose_var_cmd s i k : cmd_built (var s k) (v_cmd (var (propose d s i) k)).
+  Proof.
+    unfold propose, observe, with_active. destruct k; cbn [var st_sed st_pn st_dn st_tn st_ic st_oc set_cmd v_cmd];
+      first [apply built_attr | apply built_tn | apply built_cost].
+  Qed.
+
+  Lemma propose_var s i k : var (propose d s i) k = set_cmd (var s k) (v_cmd (var (propose d s i) k)).
+  Proof. destruct k; reflexivity. Qed.
+
+  Lemma accept_var s k : var (accept s) k = do_cmd (var s k).
+  Proof. destruct k; reflexivity. Qed.
+
+  Lemma accept_total s i k :
+    v_total (var (accept (propose d s i)) k) =
+    v_total (var s k) + cmd_change (v_cmd (var (propose d s i) k)).
+  Proof.
+    destruct (propose_var_cmd s i k) as (H1 & H2 & H3 & _).
+    remember (v_cmd (var (propose d s i) k)) as c eqn:Hc.
+    rewrite accept_var, propose_var. rewrite <- Hc.
+    rewrite do_total by assumption. unfold cmd_change. rewrite H1, H3. reflexivity.
+  Qed.
+
+  Lemma propose_cmd_pu s i k : c_pu (v_cmd (var (propose d s i) k)) = a_pu (act d i).
+  Proof. destruct k; reflexivity. Qed.
+
+  Lemma accept_locality s i k pu :
+    pu <> a_pu (act d i) -> v_vals (var (accept (propose d s i)) k) pu = v_vals (var s k) pu.
+  Proof.
+    intro H. destruct (propose_var_cmd s i k) as (H1 & H2 & _).
+    pose proof (propose_cmd_pu s i k) as Hpu.
+    remember (v_cmd (var (propose d s i) k)) as c eqn:Hc.
+    rewrite accept_var, propose_var. rewrite <- Hc.
+    rewrite do_vals by assumption. unfold fupd. rewrite Hpu.
+    destruct (pu =? a_pu (act d i)) eqn:E; [apply Z.eqb_eq in E; contradiction|reflexivity].
+  Qed.
+
+  Lemma accept_idempotent s k :
+    c_null (v_cmd (var s k)) = false ->
+    var (accept (accept s)) k = var (accept s) k.
+  Proof.
+    intro Hn. rewrite !accept_var. unfold do_cmd at 1.
+    assert (H : c_isdone (v_cmd (do_cmd (var s k))) = true \/ c_null (v_cmd (do_cmd (var s k))) = true).
+    { unfold do_cmd. rewrite Hn. destruct (c_isdone (v_cmd (var s k))) eqn:E; [left; exact E|left; reflexivity]. }
+    destruct (c_null (v_cmd (do_cmd (var s k)))); [reflexivity|].
+    destruct H as [H|H]; [now rewrite H|discriminate].
+  Qed.
+
+  (* observables restored exactly by a revert (hidden attributes included: revert_propose_same_vars) *)
+  Lemma revert_obs s i : obs_of d (revert (propose d s i)) = obs_of d s.
+  Proof.
+    unfold obs_of. apply f_equal2.
+    - unfold active_list. apply map_ext. intro j. apply revert_propose_active.
+    - apply map_ext. intro k. unfold obs_var.
+      destruct (revert_propose_same_vars d s i k) as (_ & B & C). rewrite <- C. apply f_equal2; [reflexivity|].
+      apply map_ext. intro pu. symmetry. apply B.
+  Qed.
+
+  Lemma undo_obs s i : obs_of d (revert (accept (propose d s i))) = obs_of d s.
+  Proof.
+    unfold obs_of. apply f_equal2.
+    - unfold active_list. apply map_ext. intro j. apply try_accept_revert_active.
+    - apply map_ext. intro k. unfold obs_var.
+      destruct (try_accept_revert_same_vars d s i k) as (_ & B & C). rewrite C. apply f_equal2; [reflexivity|].
+      apply map_ext. intro pu. apply B.
+  Qed.
+
+  (* ---- C10 ---- *)
+  Lemma undoable_is_prospective s i k :
+    undoable_value (propose d s i) k = v_total (var (accept (propose d s i)) k).
+  Proof.
+    unfold undoable_value. rewrite accept_total.
+    destruct (propose_keeps_values s i k) as (_ & T & _). now rewrite T.
+  Qed.
+
+  Theorem valid_iff_prospective_state_valid s i :
+    change_is_valid d (propose d s i) = state_is_valid d (accept (propose d s i)).
+  Proof.
+    unfold change_is_valid, state_is_valid, all_vk. cbn [forallb]. now rewrite !undoable_is_prospective.
+  Qed.
+
+  Lemma within_limited k m z : d_limit d = Some (k, m) -> within d k z = Qle_bool (grid_to_Q k z) m.
+  Proof. intro H. unfold within. rewrite H. destruct k; reflexivity. Qed.
+
+  Lemma within_other k k' m z : d_limit d = Some (k', m) -> k <> k' -> within d k z = true.
+  Proof. intros H Hne. unfold within. rewrite H. destruct k, k'; try reflexivity; contradiction. Qed.
+
+  Lemma within_nolimit k z : d_limit d = None -> within d k z = true.
+  Proof. intro H. unfold within. now rewrite H. Qed.
+
+  Theorem valid_iff_within_limit s i k m :
+    d_limit d = Some (k, m) ->
+    change_is_valid d (propose d s i) = Qle_bool (grid_to_Q k (v_total (var (accept (propose d s i)) k))) m.
+  Proof.
+    intro H. rewrite valid_iff_prospective_state_valid. unfold state_is_valid, all_vk.
+    cbn [forallb]. rewrite <- (within_limited k m _ H).
+    destruct k;
+      repeat match goal with
+             | |- context [within d ?k' ?z] => rewrite (within_other k' _ m z H) by discriminate
+             end; rewrite ?andb_true_r; reflexivity.
+  Qed.
+
+  Theorem quote_is_prospective s i q :
+    rejection_quote d (propose d s i) = Some q ->
+    exists k m, d_limit d = Some (k, m) /\ q = v_total (var (accept (propose d s i)) k) /\
+                change_is_valid d (propose d s i) = false.
+  Proof.
+    unfold rejection_quote. destruct (d_limit d) as [[k m]|] eqn:L; [|discriminate].
+    destruct (within d k (undoable_value (propose d s i) k)) eqn:W; [discriminate|].
+    intro H. inversion H; subst. exists k, m. repeat split; [apply undoable_is_prospective|].
+    rewrite (valid_iff_within_limit s i k m L). rewrite <- undoable_is_prospective.
+    now rewrite <- (within_limited k m _ L).
+  Qed.
+
+  Lemma scale_pos k : (0 < scale_of k)%Z.
+  Proof. destruct k; reflexivity. Qed.
+
+  Lemma grid_to_Q_mono k z1 z2 : (z1 <= z2)%Z -> Qle (grid_to_Q k z1) (grid_to_Q k z2).
+  Proof.
+    intro H. unfold grid_to_Q, Qdiv. apply Qmult_le_compat_r.
+    - now rewrite <- Zle_Qle.
+    - apply Qinv_le_0_compat. replace 0%Q with (inject_Z 0) by reflexivity. rewrite <- Zle_Qle.
+      pose proof (scale_pos k). lia.
+  Qed.
+
+  Theorem lowering_never_rejected s i k m :
+    d_limit d = Some (k, m) ->
+    (cmd_change (v_cmd (var (propose d s i) k)) <= 0)%Z ->
+    Qle_bool (grid_to_Q k (v_total (var s k))) m = true ->
+    change_is_valid d (propose d s i) = true.
+  Proof.
+    intros L Hc Hw. rewrite (valid_iff_within_limit s i k m L). rewrite accept_total.
+    apply Qle_bool_iff. apply Qle_bool_iff in Hw.
+    eapply Qle_trans; [|exact Hw]. apply grid_to_Q_mono. lia.
+  Qed.
+End Transactions.
